@@ -9,7 +9,39 @@ PROPS = "props/C03.v"
 SPEC_NAMES = set("""length keys add reverse type flatten min max sort unique transpose explode implode
 ascii_downcase ascii_upcase utf8bytelength tonumber abs has contains inside indices index rindex startswith
 endswith ltrimstr rtrimstr trimstr getpath split _add _subtract _multiply _divide _modulo _equal _notequal
-_less _greater _lesseq _greatereq _alternative _index _slice _min_by _max_by""".split())
+_less _greater _lesseq _greatereq _alternative _index _slice _min_by _max_by _plus _negate toboolean isnan isinfinite isfinite isnormal ltrim rtrim trim floor ceil trunc round rint nearbyint fabs sqrt""".split())
+
+# machine-readable status of every native / operator (name/arity): how "model = documented function" is
+# established.  proved: theorem in coq/props/C03.v on all well-formed inputs; proved-partial: theorem on a
+# stated sub-domain (rest by correspondence with Spec.v or the model); correspondence: judged against
+# Spec.v and the model on every run; model-only: judged against the model only (no Spec.v entry);
+# proved-oracle: dispatch / conversion proved, the libm value compared by class; excluded: outside C03's model.
+def _status():
+    st = {}
+    def put(kind, names):
+        for n in names.split():
+            st[n] = kind
+    put("proved", """_add/2 _subtract/2 _multiply/2 _divide/2 _modulo/2 _equal/2 _notequal/2 _less/2 _greater/2 _lesseq/2
+        _greatereq/2 _alternative/2 keys/0 has/1 reverse/0 type/0 explode/0 utf8bytelength/0 startswith/1 endswith/1
+        ltrimstr/1 rtrimstr/1 trimstr/1 min/0 max/0 _min_by/1 _max_by/1 add/0 tonumber/0 transpose/0 contains/1 inside/1
+        indices/1 index/1 rindex/1 error/0 error/1 halt/0 halt_error/0 halt_error/1 toboolean/0 _plus/0 isnan/0 isinfinite/0
+        isfinite/0 isnormal/0 floor/0 round/0 nearbyint/0 rint/0 ceil/0 trunc/0 fabs/0 sqrt/0 fmax/2 fmin/2""")
+    put("proved-partial", """length/0 abs/0 ascii_downcase/0 ascii_upcase/0 split/1 implode/0 flatten/0 flatten/1 getpath/1 _index/2
+        setpath/2 _range/3 join/1 sort/0 _sort_by/1 unique/0 _unique_by/1 _group_by/1 _tocsv/0 _totsv/0 _tosh/0 tostring/0
+        format/1 tojson/0 _negate/0 ltrim/0 rtrim/0 trim/0 _slice/3""")
+    put("model-only", """fromjson/0 _tohtml/0 _touri/0 _tourid/0 _tobase64/0 _tobase64d/0 delpaths/1 bsearch/1 infinite/0 nan/0""")
+    # proved-oracle: dispatch and argument conversion proved (C03_natives_meet_doc5); the function value is libm (class only)
+    put("proved-oracle", """sin/0 cos/0 tan/0 asin/0 acos/0 atan/0 sinh/0 cosh/0 tanh/0 asinh/0 acosh/0 atanh/0 significand/0 cbrt/0 exp/0
+        exp10/0 exp2/0 expm1/0 log/0 log10/0 log1p/0 log2/0 logb/0 gamma/0 tgamma/0 lgamma/0 erf/0 erfc/0 j0/0 j1/0 y0/0 y1/0
+        atan2/2 copysign/2 drem/2 fdim/2 fmod/2 hypot/2 jn/2 nextafter/2 nexttoward/2 remainder/2 ldexp/2 scalb/2 scalbln/2 yn/2
+        pow/2 fma/3""")
+    put("oracle", "frexp/0 modf/0")
+    put("excluded", """empty/0 path/1 env/0 builtins/0 input/0 modulemeta/0 debug/1 _match/3 _captures/0 gmtime/0 localtime/0 mktime/0
+        strftime/1 strflocaltime/1 strptime/1 now/0""")
+    return st
+
+
+NATIVE_STATUS = _status()
 
 CALL = re.compile(r"^\(call (\S+) ")
 
@@ -167,7 +199,7 @@ def run(tier, seed):
             "two arguments of arity 2 (operators), structured triples for _slice/_range/fma; every call repeated with each Go "
             "representation of its numbers; compiled path `f($a;$b)` against the direct call; distinct = distinct case lines"
             % (len(dist), st.get("universe"), st.get("core")))
-    return c.finish(rule, extra_cov=dict(harness_stats=st, sync_stats=st_sync, history_stats=st_hist, skipped_by_model=skipped,
+    return c.finish(rule, extra_cov=dict(native_status=NATIVE_STATUS, harness_stats=st, sync_stats=st_sync, history_stats=st_hist, skipped_by_model=skipped,
                                          model_mismatches=nreal, spec_mismatches=nspec,
                                          name_arity_pairs=len(dist)))
 
